@@ -77,6 +77,8 @@ def cap_cases(ctx, scale=1):
 
     def cap(ra, dec, rad, dorot, u, upsi, fam, gen=None):
         gen = gen or r.choice(STUBS)
+        if ctx.quick() and not fam.startswith("cap/pole"):
+            u, upsi = u[:1], upsi[:1]            # quick tier: the designated (edge) deviate only
         cs.append({"kind": "cap", "ra": float(ra), "dec": float(dec), "rad": float(rad), "dorot": bool(dorot),
                    "gen": gen, "seed": None, "nrand": len(u), "dev": [[float(x) for x in u], [float(x) for x in upsi]],
                    "family": fam})
@@ -108,10 +110,24 @@ def cap_cases(ctx, scale=1):
         for p in edge_p[:3]:
             ra, dec = _sphere_point(r)
             cap(ra, dec, _radius(r), r.random() < 0.3, [u], [p], "cap/edge-deviates")
+    # input forms of the centre / radius / count (values exactly representable in every form, so each form denotes the
+    # same reals): python float, python int, numpy float32/float64 scalars, 0-d and length-1 arrays; keyword omitted vs
+    # given as its default; positional call; numpy integer count
+    k = 0
+    for form in CAP_FORMS:
+        for polar in (False, True):
+            ra = float(r.randrange(0, 360)) + (0.0 if form == "int" else 0.5)
+            dec = (r.choice([90.0, -90.0, 89.9375]) if polar else float(r.randrange(-80, 80)) + 0.25)
+            if form == "int":
+                dec = r.choice([90.0, -90.0]) if polar else float(r.randrange(-80, 80))
+            rad = r.choice([1.0, 2.0, 30.0]) if form == "int" else r.choice([0.5, 2.0, 30.0, 0.015625])
+            cap(ra, dec, rad, (k % 3 == 0), [1.0, r.random()], [r.random(), r.random()], "cap/forms/" + form)
+            cs[-1].update({"form": form, "kw": ("explicit", "omit", "positional")[k % 3], "nrand_np": k % 2 == 1})
+            k += 1
     # seeded random: stub and real generators, both branches
-    for _ in range(int(ctx.n(14, 320) * scale)):
+    for _ in range(int(ctx.n(12, 320) * scale)):
         ra, dec = _sphere_point(r)
-        n = r.choice([1, 2, 3])
+        n = r.choice([1, 2] if ctx.quick() else [1, 2, 3])
         c = {"kind": "cap", "ra": ra, "dec": dec, "rad": _radius(r), "dorot": r.random() < 0.4,
              "gen": r.choice(STUBS + REALS), "family": "cap/random"}
         if c["gen"] in STUBS:
@@ -126,6 +142,8 @@ def box_cases(ctx, scale=1):
 
     def box(ra_range, dec_range, u1, u2, fam, system="eq", gen=None):
         gen = gen or r.choice(STUBS)
+        if ctx.quick() and fam in ("box/polar", "box/full-sphere") or (ctx.quick() and fam.startswith("box/forms")):
+            u1, u2 = u1[-1:], u2[-1:]            # quick tier: the designated (edge) deviate only
         cs.append({"kind": "box", "ra_range": ra_range, "dec_range": dec_range, "system": system, "gen": gen,
                    "seed": None, "nrand": len(u1), "dev": [[float(x) for x in u1], [float(x) for x in u2]], "family": fam})
 
@@ -144,7 +162,18 @@ def box_cases(ctx, scale=1):
         box([0.0, 360.0], [d0, d1], [r.random(), r.random()], [r.random(), r.choice([0.0, 1.0 - 2.0 ** -53])], "box/polar")
     box([359.9999, 360.0], [-1.0, 1.0], [r.random()], [r.random()], "box/seam")
     box([0.0, 1e-9], [-1e-9, 1e-9], [r.random()], [r.random()], "box/seam")
-    for _ in range(int(ctx.n(10, 180) * scale)):
+    # input forms of the ranges / count: list, tuple, float64 / float32 / int64 arrays, python ints; `system` omitted vs
+    # given as its default; positional call; numpy integer count
+    k = 0
+    for form in BOX_FORMS:
+        a0, a1 = sorted((float(r.randrange(0, 361)), float(r.randrange(0, 361))))
+        d0, d1 = sorted((float(r.randrange(-90, 91)), float(r.randrange(-90, 91))))
+        if form in ("list", "tuple", "nd_f8", "nd_f4") and a1 < 360:
+            a1 += 0.5
+        box([a0, a1], [d0, d1], [r.random(), 0.0], [r.random(), 1.0 - 2.0 ** -53], "box/forms/" + form)
+        cs[-1].update({"form": form, "kw": ("explicit", "omit", "positional")[k % 3], "nrand_np": k % 2 == 1})
+        k += 1
+    for _ in range(int(ctx.n(8, 180) * scale)):
         a0, a1 = sorted((r.random() * 360, r.random() * 360))
         d0, d1 = sorted((r.uniform(-90, 90), r.uniform(-90, 90)))
         n = r.choice([1, 2])
@@ -160,19 +189,88 @@ def box_cases(ctx, scale=1):
 # geometry: the real code
 # ======================================================================================
 
+CAP_FORMS = ("float", "int", "f32", "np64", "0d", "0d_f32", "len1")
+BOX_FORMS = ("list", "tuple", "nd_f8", "nd_f4", "nd_i8", "pyint")
+
+
+def _wrap(v, form):
+    if form == "int":
+        assert float(v) == int(v)
+        return int(v)
+    if form == "f32":
+        assert float(np.float32(v)) == float(v)
+        return np.float32(v)
+    if form == "np64":
+        return np.float64(v)
+    if form == "0d":
+        return np.array(v, dtype="f8")
+    if form == "0d_f32":
+        assert float(np.float32(v)) == float(v)
+        return np.array(v, dtype="f4")
+    if form == "len1":
+        return np.array([v], dtype="f8")
+    return float(v)
+
+
+def _wrap_range(rg, form):
+    if rg is None:
+        return None
+    if form == "tuple":
+        return tuple(rg)
+    if form == "nd_f8":
+        return np.array(rg, dtype="f8")
+    if form == "nd_f4":
+        assert all(float(np.float32(v)) == float(v) for v in rg)
+        return np.array(rg, dtype="f4")
+    if form == "nd_i8":
+        return np.array([int(v) for v in rg], dtype="i8")
+    if form == "pyint":
+        return [int(v) for v in rg]
+    return list(rg)
+
+
+def _call_geo(c, rng):
+    from esutil import coords
+    form, kw = c.get("form"), c.get("kw", "explicit")
+    n = np.int64(c["nrand"]) if c.get("nrand_np") else c["nrand"]
+    if c["kind"] == "cap":
+        args = [_wrap(c[k], form) for k in ("ra", "dec", "rad")]
+        keep = [a.copy() if isinstance(a, np.ndarray) else a for a in args]
+        if kw == "positional":
+            o = coords.randcap(n, args[0], args[1], args[2], True, c["dorot"], rng)
+        elif kw == "omit" and not c["dorot"]:
+            o = coords.randcap(n, args[0], args[1], args[2], get_radius=True, rng=rng)
+        else:
+            o = coords.randcap(n, args[0], args[1], args[2], get_radius=True, dorot=c["dorot"], rng=rng)
+    else:
+        args = [_wrap_range(c["ra_range"], form), _wrap_range(c["dec_range"], form)]
+        keep = [a.copy() if isinstance(a, np.ndarray) else a for a in args]
+        if kw == "positional":
+            o = coords.randsphere(n, args[0], args[1], c["system"], rng)
+        elif kw == "omit" and c["system"] == "eq":
+            o = coords.randsphere(n, ra_range=args[0], dec_range=args[1], rng=rng)
+        else:
+            o = coords.randsphere(n, ra_range=args[0], dec_range=args[1], system=c["system"], rng=rng)
+    same = all((isinstance(a, np.ndarray) and a.dtype == k.dtype and a.shape == k.shape and np.array_equal(a, k))
+               or (not isinstance(a, np.ndarray) and (a is k or a == k)) for a, k in zip(args, keep))
+    return o, same
+
+
 def run_geo(c):
     """run the REAL randcap / randsphere on a case; canonical output"""
-    from esutil import coords
     flat = [x for blk in c["dev"] for x in blk]
     rng = c19_rng.make(c["gen"], c.get("seed"), flat)
     try:
-        if c["kind"] == "cap":
-            o = coords.randcap(c["nrand"], c["ra"], c["dec"], c["rad"], get_radius=True, dorot=c["dorot"], rng=rng)
-        else:
-            o = coords.randsphere(c["nrand"], ra_range=c["ra_range"], dec_range=c["dec_range"], system=c["system"], rng=rng)
+        o, same = _call_geo(c, rng)
         cols = [np.asarray(a, dtype="f8").ravel() for a in o]
         out = {"ok": True, "ncols": len(cols), "lens": [int(a.size) for a in cols],
-               "points": [[float(a[i]) for a in cols] for i in range(min(int(a.size) for a in cols))]}
+               "points": [[float(a[i]) for a in cols] for i in range(min(int(a.size) for a in cols))],
+               "inputs_unchanged": bool(same)}
+        if c.get("form") is not None:
+            # a second call with the same arguments and an equal generator must give the same arrays
+            o2, _ = _call_geo(c, c19_rng.make(c["gen"], c.get("seed"), flat))
+            cols2 = [np.asarray(a, dtype="f8").ravel() for a in o2]
+            out["repeat_identical"] = bool(len(cols2) == len(cols) and all(a.tobytes() == b.tobytes() for a, b in zip(cols, cols2)))
     except Exception as e:  # noqa
         out = {"ok": False, "err": core.errclass(e), "msg": "%s: %s" % (type(e).__name__, str(e)[:200])}
     if c["gen"] in STUBS:
@@ -266,7 +364,7 @@ LD = np.longdouble
 PI_L = LD("3.14159265358979323846264338327950288")
 SLACK, VSLACK, SINSLACK = LD(1e-9), LD(15) / LD(10) ** 23, LD(4) / LD(10) ** 15
 SUSPECT_MAX = 3
-GEO_PAR = 8
+GEO_PAR = 10
 
 
 def _d2r(x):
@@ -366,6 +464,10 @@ def geometry(ctx, replay_case=None):
             ctx.violation("%s did not return the requested number of points (%s instead of %d x %d)"
                           % (c["kind"], out["lens"], want_cols, c["nrand"]), rep)
             continue
+        if not out.get("inputs_unchanged", True) or not out.get("repeat_identical", True):
+            ctx.violation("%s is not reproducible for equal generators: %s" % (c["kind"], "it modified the array it was given"
+                          if not out.get("inputs_unchanged", True) else "a second call with equal arguments returned other values"), rep)
+            continue
         if c["gen"] in STUBS and not out.get("stub_exhausted", True):
             ctx.violation("%s did not draw the deviates the model assumes (calls: %s)" % (c["kind"], out["stub_calls"]),
                           dict(rep, no_longer_checks="correspondence C19 deviate protocol"), found_input=False)
@@ -391,7 +493,7 @@ def geometry(ctx, replay_case=None):
     ctx.count("prescreen:predicted-to-hold", len(good))
     ctx.count("prescreen:predicted-to-fail", len(suspect) + len(skipped))
     # at most GEO_PAR coqc processes at a time (each holds ~0.6 GB with Interval loaded; core.coq_lemmas would start 16)
-    res, sh = [], ctx.n(24, 30)
+    res, sh = [], (max(16, min(40, -(-len(good) // GEO_PAR))) if ctx.quick() else 30)
     for b0 in range(0, len(good), sh * GEO_PAR):
         res += core.coq_lemmas(ctx.work + "/geo%d" % (b0 // (sh * GEO_PAR)), PRE_R,
                                [it[4] for it in good[b0:b0 + sh * GEO_PAR]], shard=sh, tag="geo")
@@ -486,44 +588,95 @@ class ParEntry(Entry):
 
 
 class SkyDiscrete(ParEntry):
+    """count, exact ranges, radii bound and bit-identical repetition on seeded REAL generators (RandomState and
+    default_rng), with the generator omitted (rng=None: ranges and count only), every argument form of the centre /
+    ranges, keywords omitted or given as their defaults, and long requests (2^k +- 1 up to 10^5: the Coq term then
+    carries the extremes of every column plus sampled rows; the count and the bit-identity of the two runs are
+    integer / byte comparisons made here)."""
     name = "sky_discrete"
+    LONG = 256
 
     def make_cases(self, ctx, round=0):
         r = ctx.rng
         cs = []
-        for _ in range(ctx.n(40, 400)):
+
+        def cap(n, gen, form=None, **kw):
+            ra, dec = _sphere_point(r)
+            dec = r.choice([dec, dec, 90.0, -90.0, 89.95])
+            ra, rad = r.choice([ra, ra, 0.0, 360.0]), _radius(r)
+            form = form or r.choice(CAP_FORMS)
+            if form in ("f32", "0d_f32"):
+                ra, dec, rad = (float(np.float32(v)) for v in (ra, dec, rad))
+            if form == "int":
+                ra, dec, rad = float(np.rint(ra)), float(np.rint(dec)), float(max(1.0, min(180.0, np.rint(rad))))
+            c = {"kind": "cap", "ra": ra, "dec": dec, "rad": rad, "dorot": r.random() < 0.4, "get_radius": r.random() < 0.6,
+                 "nrand": n, "gen": gen, "seed": r.randrange(2 ** 31), "family": "cap", "form": form,
+                 "kw": r.choice(["explicit", "omit"]), "nrand_np": r.random() < 0.3}
+            c.update(kw)
+            cs.append(c)
+
+        def box(n, gen, **kw):
+            a0, a1 = sorted((r.random() * 360, r.random() * 360))
+            d0, d1 = sorted((r.uniform(-90, 90), r.uniform(-90, 90)))
+            form = r.choice(BOX_FORMS)
+            ra_range = r.choice([[a0, a1], None, [a0, a0]])
+            dec_range = r.choice([[d0, d1], None, [d0, d0], [-90.0, 90.0]])
+            if form == "nd_f4":
+                form = "nd_f8"          # arbitrary doubles are not float32 values; float32 ranges: geometry family box/forms
+            if form in ("nd_i8", "pyint"):
+                ra_range = None if ra_range is None else [float(int(v)) for v in ra_range]
+                dec_range = None if dec_range is None else [float(int(v)) for v in dec_range]
+            c = {"kind": "box", "ra_range": ra_range, "dec_range": dec_range, "nrand": n, "gen": gen, "seed": r.randrange(2 ** 31),
+                 "family": "box", "form": form, "kw": r.choice(["explicit", "omit"]), "nrand_np": r.random() < 0.3, "system": "eq"}
+            c.update(kw)
+            cs.append(c)
+        for _ in range(ctx.n(36, 360)):
             n = r.choice([0, 1, 2, 7, 50])
-            if r.random() < 0.6:
-                ra, dec = _sphere_point(r)
-                dec = r.choice([dec, dec, 90.0, -90.0, 89.95])
-                cs.append({"kind": "cap", "ra": r.choice([ra, ra, 0.0, 360.0]), "dec": dec, "rad": _radius(r),
-                           "dorot": r.random() < 0.4, "get_radius": r.random() < 0.6, "nrand": n,
-                           "gen": r.choice(REALS), "seed": r.randrange(2 ** 31), "family": "cap"})
-            else:
-                a0, a1 = sorted((r.random() * 360, r.random() * 360))
-                d0, d1 = sorted((r.uniform(-90, 90), r.uniform(-90, 90)))
-                cs.append({"kind": "box", "ra_range": r.choice([[a0, a1], None, [a0, a0]]),
-                           "dec_range": r.choice([[d0, d1], None, [d0, d0], [-90.0, 90.0]]), "nrand": n,
-                           "gen": r.choice(REALS), "seed": r.randrange(2 ** 31), "family": "box"})
+            (cap if r.random() < 0.6 else box)(n, r.choice(REALS))
+        if round == 0:
+            for n in (0, 3):                                   # generator omitted
+                cap(n, "none", family="cap/rng-omitted")
+                box(n, "none", family="box/rng-omitted")
+            for n in ((4097,) if ctx.quick() else (4097, 65537, 100003)):
+                cap(n, r.choice(REALS), family="cap/long", get_radius=True)
+                cap(n, r.choice(REALS), family="cap/long", get_radius=True, dorot=True)
+                box(n, r.choice(REALS), family="box/long")
         return cs
 
     def impl_real(self, c):
-        from esutil import coords
-
         def once():
-            rng = c19_rng.make(c["gen"], c["seed"])
-            if c["kind"] == "cap":
-                o = coords.randcap(c["nrand"], c["ra"], c["dec"], c["rad"], get_radius=c["get_radius"],
-                                   dorot=c["dorot"], rng=rng)
+            rng = None if c["gen"] == "none" else c19_rng.make(c["gen"], c["seed"])
+            if c["kind"] == "cap" and not c["get_radius"]:
+                from esutil import coords
+                a = [_wrap(c[k], c.get("form")) for k in ("ra", "dec", "rad")]
+                n = np.int64(c["nrand"]) if c.get("nrand_np") else c["nrand"]
+                kw = {} if (c.get("kw") == "omit" and not c["dorot"]) else {"dorot": c["dorot"]}
+                if c.get("kw") != "omit":
+                    kw["get_radius"] = False
+                o = coords.randcap(n, a[0], a[1], a[2], rng=rng, **kw)
             else:
-                o = coords.randsphere(c["nrand"], ra_range=c["ra_range"], dec_range=c["dec_range"], rng=rng)
+                o, _same = _call_geo(c, rng)
             cols = [np.asarray(a, dtype="f8").ravel() for a in o]
             if not all(np.all(np.isfinite(a)) for a in cols):
                 raise FloatingPointError("non-finite output")
-            return {"ncols": len(cols), "cols": [[float(x) for x in a] for a in cols]}
-        a, b = core.guarded(once), core.guarded(once)
-        return {"run1": a[1] if a[0] == "ok" else None, "run2": b[1] if b[0] == "ok" else None,
-                "err": None if a[0] == "ok" and b[0] == "ok" else (a[2] if a[0] != "ok" else b[2])}
+            return cols
+        a = core.guarded(once)
+        b = a if c["gen"] == "none" else core.guarded(once)      # nothing to repeat without a generator
+        if a[0] != "ok" or b[0] != "ok":
+            return {"run1": None, "run2": None, "err": a[2] if a[0] != "ok" else b[2]}
+        ca, cb_ = a[1], b[1]
+        lens = [int(x.size) for x in ca]
+        res = {"err": None, "lens": lens, "lens2": [int(x.size) for x in cb_], "sub": None}
+        if len(set(lens)) == 1 and lens and lens[0] > self.LONG and len(ca) == len(cb_) and lens == res["lens2"]:
+            n = lens[0]
+            idx = sorted(set([0, n - 1] + [int(f(col)) for col in ca for f in (np.argmin, np.argmax)]
+                             + [int(i) for i in np.random.RandomState(c["seed"] % 2 ** 31).randint(0, n, 12)]))
+            res["sub"] = len(idx)
+            res["bytes_identical"] = all(x.tobytes() == y.tobytes() for x, y in zip(ca, cb_))
+            ca, cb_ = [x[idx] for x in ca], [x[idx] for x in cb_]
+        res["run1"] = {"ncols": len(ca), "cols": [[float(v) for v in x] for x in ca]}
+        res["run2"] = {"ncols": len(cb_), "cols": [[float(v) for v in x] for x in cb_]}
+        return res
 
     def term_real(self, c, out):
         if out["err"] is not None:
@@ -532,7 +685,14 @@ class SkyDiscrete(ParEntry):
         want = 3 if (c["kind"] == "cap" and c["get_radius"]) else 2
         if r1["ncols"] != want or r2["ncols"] != want or len(set(len(x) for x in r1["cols"])) != 1:
             return "2%Z"
-        t = "v_sky %s %s %s" % (cz(c["nrand"]), cqpairs(zip(r1["cols"][0], r1["cols"][1])),
+        n = c["nrand"]
+        if out["sub"] is not None:
+            if out["lens"] != [c["nrand"]] * want or not out["bytes_identical"]:
+                return "2%Z"
+            n = out["sub"]
+        elif out["lens"] != out["lens2"]:
+            return "2%Z"
+        t = "v_sky %s %s %s" % (cz(n), cqpairs(zip(r1["cols"][0], r1["cols"][1])),
                                 cqpairs(zip(r2["cols"][0], r2["cols"][1])))
         if want == 3:
             t = "Z.max (%s) (v_radii %s %s %s)" % (t, cQ(c["rad"]), cqlist(r1["cols"][2]), cqlist(r2["cols"][2]))
@@ -548,6 +708,36 @@ class SkyDiscrete(ParEntry):
 
 def _poly(a, b, c2):
     return lambda t: a + b * t + c2 * t * t
+
+
+GEN_FORMS = ("list", "tuple", "int", "i4", "f4", "be", "strided", "reversed-view", "readonly")
+
+
+def _arr(v, form):
+    """the same numbers in another container / dtype / memory layout"""
+    a = np.array(v, dtype="f8")
+    if form == "list":
+        return [float(t) for t in v]
+    if form == "tuple":
+        return tuple(float(t) for t in v)
+    if form in ("int", "i4"):
+        assert all(float(int(t)) == float(t) for t in v)
+        return np.array([int(t) for t in v], dtype="i8" if form == "int" else "i4")
+    if form == "f4":
+        assert all(float(np.float32(t)) == float(t) for t in v)
+        return a.astype("f4")
+    if form == "be":
+        return a.astype(">f8")
+    if form == "strided":
+        b = np.full(2 * len(a), -777.0)
+        b[::2] = a
+        return b[::2]
+    if form == "reversed-view":
+        return a[::-1].copy()[::-1]
+    if form == "readonly":
+        a.setflags(write=False)
+        return a
+    return a
 
 
 class GeneratorEntry(ParEntry):
@@ -613,7 +803,53 @@ class GeneratorEntry(ParEntry):
             c = one(6, "uniform", "random", fam="no-deviates")
             c["us"], c["nodes"] = [], []
             cs.append(c)
-        for _ in range(ctx.n(36, 900)):
+        if round == 0:
+            # input forms of the table: containers, integer / float32 / big-endian dtypes, strided and negative-stride
+            # views, read-only arrays (float32 tables are built by numpy in float32: tolerance x 2^29)
+            for form in GEN_FORMS:
+                integral = form in ("int", "i4")
+                c = one(r.choice([5, 9]), "integers" if integral else "uniform", "small-integers" if integral else "random",
+                        fam="forms/" + form)
+                if form == "f4":
+                    c["x"] = [float(np.float32(t)) for t in c["x"]]
+                    c["p"] = [float(np.float32(t)) for t in c["p"]]
+                c["form"] = form
+                cs.append(c)
+            for form in ("list", "tuple", "strided", "readonly", "be"):
+                c = one(7, "irregular", "random", mode="func_x", fam="forms/func_x/" + form)
+                c["form"] = form
+                cs.append(c)
+            # options: alias genrand, numpy integer count, defaults given explicitly, xrange as tuple, nx numpy integer
+            for opt in ("alias", "n_np", "kwdef"):
+                c = one(6, "uniform", "random", fam="options/" + opt)
+                c["opt"] = opt
+                cs.append(c)
+            c = one(8, "uniform", "random", mode="func_range", fam="options/xrange-tuple-nx-np")
+            c["opt"] = "range_np"
+            cs.append(c)
+            # Generator(seed=s): its own RandomState(seed); deviates known through a twin generator
+            for _ in range(3):
+                c = one(r.choice([4, 12]), "irregular", "wide", fam="seeded-own-generator")
+                c["gen"], c["seed"], c["nodes"] = "seed", r.randrange(2 ** 31), []
+                c["us"] = c19_rng.deviates_of("legacy", c["seed"], [len(c["us"])])[0]
+                cs.append(c)
+            # cumulative=True (the table IS the cumulative distribution): model comparison only
+            for _ in range(3):
+                c = one(r.choice([3, 6, 11]), "irregular", "random", fam="cumulative-table")
+                acc, cum = 0.0, []
+                for v in c["p"]:
+                    acc += v
+                    cum.append(acc)
+                c["p"], c["mode"], c["nodes"] = cum, "cum", []
+                cs.append(c)
+            # long request (2^k + 1): pairwise monotonicity checker off, value-by-value agreement on
+            # long requests (beyond any plausible internal block size): the count is compared here, the Coq term carries the
+            # pairs at both ends, around every power of two, at the extremes of the output and at sampled positions
+            for nlong in ((20001,) if ctx.quick() else (20001, 65537, 100003)):
+                c = one(9, "irregular", "random", fam="long-request")
+                c["long"], c["nodes"], c["long_seed"] = nlong, [], r.randrange(2 ** 31)
+                cs.append(c)
+        for _ in range(ctx.n(24, 900)):
             n = r.choice([3, 4, 6, 10, 25, r.randrange(3, ctx.n(25, 120))])
             cs.append(one(n, r.choice(["uniform", "integers", "irregular"]), r.choice(["flat", "wide", "small-integers", "random"]),
                           mode=r.choice(["table", "table", "func_x", "func_range"]), nus=r.choice([2, 6, 12])))
@@ -623,7 +859,7 @@ class GeneratorEntry(ParEntry):
     def _table(c):
         """the grid and tabulated density the implementation works from (for the functional modes the
         harness evaluates the same python function on the same grid)"""
-        if c["mode"] == "table":
+        if c["mode"] in ("table", "cum"):
             return list(c["x"]), list(c["p"])
         f = _poly(*c["coef"])
         x = np.linspace(c["xrange"][0], c["xrange"][1], c["nx"]) if c["mode"] == "func_range" else np.array(c["x"], dtype="f8")
@@ -632,12 +868,21 @@ class GeneratorEntry(ParEntry):
     def impl_real(self, c):
         from esutil import random as er
 
+        form, opt = c.get("form"), c.get("opt")
+
         def build(us):
+            if c["gen"] == "seed":
+                return er.Generator(_arr(c["p"], form), x=_arr(c["x"], form), seed=c["seed"]), None
             rng = c19_rng.make(c["gen"], None, us)
+            kw = {"method": "accum", "cumulative": False} if opt == "kwdef" else {}
             if c["mode"] == "table":
-                g = er.Generator(np.array(c["p"], dtype="f8"), x=np.array(c["x"], dtype="f8"), rng=rng)
+                g = er.Generator(_arr(c["p"], form), x=_arr(c["x"], form), rng=rng, **kw)
+            elif c["mode"] == "cum":
+                g = er.Generator(_arr(c["p"], form), x=_arr(c["x"], form), rng=rng, cumulative=True)
             elif c["mode"] == "func_x":
-                g = er.Generator(_poly(*c["coef"]), x=np.array(c["x"], dtype="f8"), rng=rng)
+                g = er.Generator(_poly(*c["coef"]), x=_arr(c["x"], form), rng=rng)
+            elif opt == "range_np":
+                g = er.Generator(_poly(*c["coef"]), xrange=tuple(c["xrange"]), nx=np.int64(c["nx"]), rng=rng)
             else:
                 g = er.Generator(_poly(*c["coef"]), xrange=c["xrange"], nx=c["nx"], rng=rng)
             return g, rng
@@ -647,23 +892,44 @@ class GeneratorEntry(ParEntry):
             # deviates exactly equal to tabulated cumulative values (as the implementation holds them)
             nodes = [float(g.pcum[k]) for k in c["nodes"]]
             us = list(c["us"]) + nodes
+            if c.get("long"):
+                us = [float(v) for v in np.random.RandomState(c["long_seed"]).random_sample(c["long"])]
             g, rng = build(us)
             if c["scalar"]:
                 vals = [float(g.sample())]
+            elif opt == "alias":
+                vals = [float(v) for v in g.genrand(len(us))]
+            elif opt == "n_np":
+                vals = [float(v) for v in g.sample(np.int64(len(us)))]
             else:
                 vals = [float(v) for v in g.sample(len(us))]
-            if not rng.exhausted():
+            if len(vals) != len(us):
+                raise AssertionError("%d values returned for %d requested" % (len(vals), len(us)))
+            if rng is not None and not rng.exhausted():
                 raise AssertionError("deviates not consumed")
             if not _fin(vals):
                 raise FloatingPointError("non-finite sample")
+            if c.get("long"):
+                n = len(us)
+                idx = {0, n - 1, int(np.argmin(vals)), int(np.argmax(vals))}
+                for k in range(8, 17):
+                    idx.update(i for i in (2 ** k - 1, 2 ** k, 2 ** k + 1) if i < n)
+                idx.update(int(i) for i in np.random.RandomState(c["long_seed"] + 1).randint(0, n, 10))
+                idx = sorted(idx)
+                us, vals = [us[i] for i in idx], [vals[i] for i in idx]
             return {"us": us, "vals": vals, "node_targets": [float(g.xvals[k]) for k in c["nodes"]]}
         return core.guarded(f)
 
     def term_real(self, c, out):
         x, p = self._table(c)
+        fn = "v_gen_fast"
+        if c["mode"] == "cum":
+            fn = "v_gen_cum"
+        elif c.get("form") == "f4":
+            fn = "v_gen_opt (536870912 # 1)%Q true"
         if out[0] == "ok":
-            return "v_gen_fast %s %s %s (Ok %s)" % (cqlist(p), cqlist(x), cqlist(out[1]["us"]), cqlist(out[1]["vals"]))
-        return "v_gen_fast %s %s %s (Err %s)" % (cqlist(p), cqlist(x), cqlist(c["us"] or [0.5]), out[1])
+            return "%s %s %s %s (Ok %s)" % (fn, cqlist(p), cqlist(x), cqlist(out[1]["us"]), cqlist(out[1]["vals"]))
+        return "%s %s %s %s (Err %s)" % (fn, cqlist(p), cqlist(x), cqlist(c["us"] or [0.5]), out[1])
 
     def nontrivial(self, c, out):
         return out[0] == "ok" and len(c["x"]) >= 3 and len(c["us"]) >= 2
@@ -677,58 +943,174 @@ class GeneratorEntry(ParEntry):
 # Cholesky sampler
 # ======================================================================================
 
+CHOL_COV_FORMS = ("f8", "int", "i4", "be", "fortran", "strided", "readonly", "list")
+CHOL_MEAN_FORMS = ("array", "list", "tuple", "int")
+CHOL_DIST_DTYPES = ("f8", "f4", "int")
+
+
+def _cov_arr(cov, form):
+    a = np.array(cov, dtype="f8")
+    if form in ("int", "i4"):
+        assert np.all(a == np.rint(a))
+        return a.astype("i8" if form == "int" else "i4")
+    if form == "be":
+        return a.astype(">f8")
+    if form == "fortran":
+        return np.asfortranarray(a)
+    if form == "strided":
+        b = np.full((2 * a.shape[0], 2 * a.shape[1]), -777.0)
+        b[::2, ::2] = a
+        return b[::2, ::2]
+    if form == "readonly":
+        a.setflags(write=False)
+        return a
+    if form == "list":
+        return [[float(v) for v in row] for row in cov]
+    return a
+
+
+def _mean_arr(m, form):
+    if form == "list":
+        return [float(v) for v in m]
+    if form == "tuple":
+        return tuple(float(v) for v in m)
+    if form == "int":
+        assert all(float(int(v)) == float(v) for v in m)
+        return np.array([int(v) for v in m], dtype="i8")
+    return np.array(m, dtype="f8")
+
+
 class CholeskyEntry(ParEntry):
+    """CholeskySampler / cholesky_sample with a recording deviate source, over covariance forms (float64, integer dtypes,
+    big-endian, Fortran order, strided view, read-only), mean forms (array, list, tuple, integer), deviate dtypes
+    (float64, float32, integer), numpy integer counts, two consecutive sample() calls on one sampler, and the default
+    deviate source numpy.random.randn (global state seeded, deviates known through a twin RandomState)."""
     name = "cholesky"
 
     def make_cases(self, ctx, round=0):
         r = ctx.rng
         cs = []
-        for _ in range(ctx.n(60, 700)):
-            npar = r.choice([1, 2, 3, 4, 5])
-            scale = 10.0 ** r.uniform(-2, 2)
-            a = [[r.uniform(-1, 1) * scale for _ in range(npar)] for _ in range(npar)]
+
+        def one(npar, api, cov_form="f8", mean_form="array", dist_dtype="f8", fam=None, n=None):
+            integral = cov_form in ("int", "i4")
+            if integral:
+                a = [[float(r.randrange(-3, 4)) for _ in range(npar)] for _ in range(npar)]
+                scale = 1.0
+            else:
+                scale = 10.0 ** r.uniform(-2, 2)
+                a = [[r.uniform(-1, 1) * scale for _ in range(npar)] for _ in range(npar)]
             cov = [[sum(a[i][k] * a[j][k] for k in range(npar)) for j in range(npar)] for i in range(npar)]
             for i in range(npar):
-                cov[i][i] += 0.05 * scale * scale
+                cov[i][i] += 1.0 if integral else 0.05 * scale * scale
                 for j in range(i):
                     cov[i][j] = cov[j][i]
-            api = r.choice(["class", "class_scalar", "func", "func_nomean"])
-            n = 1 if api == "class_scalar" else r.choice([1, 2, 3, 4])
-            cs.append({"cov": cov, "mean": None if api == "func_nomean" else [r.uniform(-50, 50) for _ in range(npar)],
-                       "n": n, "api": api, "flat": [r.gauss(0, 1) for _ in range(npar * n)],
-                       "family": "%dx%d/%s" % (npar, npar, api)})
+            n = n if n is not None else (1 if api == "class_scalar" else r.choice([1, 2, 3, 4]))
+            tot = npar * n * (2 if api == "class_twice" else 1)
+            if dist_dtype == "int":
+                flat = [float(r.randrange(-4, 5)) for _ in range(tot)]
+            elif dist_dtype == "f4":
+                flat = [float(np.float32(r.gauss(0, 1))) for _ in range(tot)]
+            else:
+                flat = [r.gauss(0, 1) for _ in range(tot)]
+            if api in ("func_nomean",):
+                mean = None
+            elif mean_form == "int":
+                mean = [float(r.randrange(-50, 50)) for _ in range(npar)]
+            else:
+                mean = [r.uniform(-50, 50) for _ in range(npar)]
+            c = {"cov": cov, "mean": mean, "n": n, "api": api, "flat": flat, "cov_form": cov_form, "mean_form": mean_form,
+                 "dist_dtype": dist_dtype, "n_np": r.random() < 0.25,
+                 "family": fam or "%dx%d/%s" % (npar, npar, api)}
+            if api.endswith("_nodist"):
+                c["seed"] = r.randrange(2 ** 31)
+                c["flat"] = [float(v) for v in np.random.RandomState(c["seed"]).randn(npar * n)]
+            cs.append(c)
+        apis = ["class", "class_scalar", "func", "func_nomean"]
+        for _ in range(ctx.n(24, 600)):
+            one(r.choice([1, 2, 3, 4, 5]), r.choice(apis))
+        if round == 0:
+            for form in CHOL_COV_FORMS:
+                if form == "list":
+                    continue            # CholeskySampler(list, list): corpus witness (fixes/C19/0003); cholesky_sample documents `array`
+                for api in ("class", "func"):
+                    one(r.choice([2, 3, 5]), api, cov_form=form, fam="forms/cov-%s/%s" % (form, api))
+            for form in CHOL_MEAN_FORMS:
+                for api in ("class", "func"):
+                    if form in ("list", "tuple") and api == "class":
+                        continue        # same corpus witness
+                    one(r.choice([2, 4]), api, mean_form=form, fam="forms/mean-%s/%s" % (form, api))
+            for dt in CHOL_DIST_DTYPES:
+                for api in ("class", "func"):
+                    one(r.choice([2, 3]), api, dist_dtype=dt, fam="forms/dist-%s/%s" % (dt, api))
+            one(3, "class", cov_form="int", mean_form="int", dist_dtype="int", fam="forms/all-integer/class")
+            one(3, "func", cov_form="int", mean_form="int", dist_dtype="int", fam="forms/all-integer/func")
+            for npar in (2, 5):
+                one(npar, "class_twice", fam="two-calls-one-sampler")
+                one(npar, "class_nodist", fam="default-deviate-source/class")
+                one(npar, "func_nodist", fam="default-deviate-source/func")
         return cs
 
     def impl_real(self, c):
         from esutil import random as er
         drew = []
+        npar = len(c["cov"])
+        dt = {"f8": "f8", "f4": "f4", "int": "i8"}[c.get("dist_dtype", "f8")]
+        pos = [0]
 
         def dist(k):                       # recording deviate source
             drew.append(int(k))
-            return np.array(c["flat"][:int(k)], dtype="f8")
+            blk = c["flat"][pos[0]:pos[0] + int(k)]
+            pos[0] += int(k)
+            return np.array(blk, dtype="f8").astype(dt)
 
         def f():
-            cov = np.array(c["cov"], dtype="f8")
-            if c["api"].startswith("class"):
-                cs = er.CholeskySampler(np.array(c["mean"], dtype="f8"), cov, dist=dist)
+            cov = _cov_arr(c["cov"], c.get("cov_form", "f8"))
+            keep = np.array(c["cov"], dtype="f8")
+            mean = None if c["mean"] is None else _mean_arr(c["mean"], c.get("mean_form", "array"))
+            n = np.int64(c["n"]) if c.get("n_np") else c["n"]
+            api = c["api"]
+            s2 = None
+            if api.endswith("_nodist"):
+                np.random.seed(c["seed"])
+            if api.startswith("class"):
+                cs = er.CholeskySampler(mean, cov) if api == "class_nodist" else er.CholeskySampler(mean, cov, dist=dist)
                 M = cs.M
-                s = cs.sample() if c["api"] == "class_scalar" else cs.sample(c["n"])
+                s = cs.sample() if api == "class_scalar" else cs.sample(n)
                 s = np.atleast_2d(s)
+                if api == "class_twice":
+                    s2 = np.atleast_2d(cs.sample(n))
+                    M2 = cs.M
+                    if M2 is not M or not np.array_equal(np.asarray(M2), np.asarray(M)):
+                        raise AssertionError("factor changed between two sample() calls")
             else:
-                M = np.linalg.cholesky(cov)            # the oracle call cholesky_sample makes
-                s = er.cholesky_sample(cov, c["n"], means=None if c["mean"] is None else np.array(c["mean"], dtype="f8"), dist=dist)
+                M = np.linalg.cholesky(np.asarray(cov))            # the oracle call cholesky_sample makes
+                if api == "func_nodist":
+                    s = er.cholesky_sample(cov, n, means=mean)
+                else:
+                    s = er.cholesky_sample(cov, n, means=mean, dist=dist)
+            if not np.array_equal(np.asarray(cov, dtype="f8"), keep):
+                raise AssertionError("the covariance argument was modified")
             if not np.all(np.isfinite(s)):
                 raise FloatingPointError("non-finite sample")
-            return {"M": [[float(v) for v in row] for row in M], "samples": [[float(v) for v in row] for row in s], "drew": drew}
+            if api.endswith("_nodist"):
+                drew.append(npar * c["n"])
+            mat = lambda m: [[float(v) for v in row] for row in np.asarray(m, dtype="f8")]   # noqa
+            return {"M": mat(M), "samples": mat(s), "samples2": None if s2 is None else mat(s2), "drew": drew}
         return core.guarded(f)
 
     def term_real(self, c, out):
-        if out[0] != "ok" or out[1]["drew"] != [len(c["cov"]) * c["n"]]:
+        k = len(c["cov"]) * c["n"]
+        want = [k, k] if c["api"] == "class_twice" else [k]
+        if out[0] != "ok" or out[1]["drew"] != want:
             return "2%Z"                    # raised on an SPD covariance, or did not draw npar*n deviates in one call
         o = out[1]
         mat = lambda m: "[" + "; ".join(cqlist(row) for row in m) + "]"   # noqa
-        return "v_chol %s %s %s %d%%nat %s %s" % ("None" if c["mean"] is None else "(Some %s)" % cqlist(c["mean"]),
-                                                  mat(c["cov"]), mat(o["M"]), c["n"], cqlist(c["flat"]), mat(o["samples"]))
+        mean = "None" if c["mean"] is None else "(Some %s)" % cqlist(c["mean"])
+        t = "v_chol %s %s %s %d%%nat %s %s" % (mean, mat(c["cov"]), mat(o["M"]), c["n"], cqlist(c["flat"][:k]), mat(o["samples"]))
+        if c["api"] == "class_twice":
+            t = "Z.max (%s) (v_chol %s %s %s %d%%nat %s %s)" % (t, mean, mat(c["cov"]), mat(o["M"]), c["n"],
+                                                               cqlist(c["flat"][k:2 * k]), mat(o["samples2"]))
+        return t
 
     def nontrivial(self, c, out):
         return len(c["cov"]) >= 2
@@ -761,19 +1143,41 @@ class RandomIndices(ParEntry):
             if nrand > 2000:
                 nrand = 2000 + (0 if not unique else 0)
             cs.append({"imax": imax, "nrand": nrand, "unique": unique, "gen": r.choice(["legacy", "new", "seed"]),
-                       "seed": r.randrange(2 ** 31), "family": "random"})
+                       "seed": r.randrange(2 ** 31), "family": "random",
+                       "form": r.choice(["py", "py", "np", "positional"]), "unique_kw": r.choice(["given", "omit"])})
+        if round == 0:
+            for k in range(4):                                 # neither rng nor seed: a fresh default_rng()
+                cs.append({"imax": r.randrange(2, 50), "nrand": r.randrange(0, 12), "unique": k % 2 == 0, "gen": "none", "seed": 0,
+                           "family": "rng-and-seed-omitted", "form": "py", "unique_kw": "omit" if k % 2 == 0 else "given"})
+            # large populations / long selections (numpy switches algorithm with the population size)
+            for imax, nrand in (((100003, 1025), (65537, 1023)) if ctx.quick() else ((100003, 4097), (65537, 4095), (2 ** 31 + 11, 1025))):
+                for unique in (True, False):
+                    cs.append({"imax": imax, "nrand": nrand, "unique": unique, "gen": r.choice(["legacy", "new", "seed"]),
+                               "seed": r.randrange(2 ** 31), "family": "large", "form": r.choice(["py", "np"]), "unique_kw": "given"})
         return cs
 
     def impl_real(self, c):
         from esutil import random as er
 
+        form = c.get("form", "py")
+        imax, nrand = (np.int64(c["imax"]), np.int64(c["nrand"])) if form == "np" else (c["imax"], c["nrand"])
+
         def once():
+            kw = {} if (c.get("unique_kw") == "omit" and c["unique"]) else {"unique": c["unique"]}
             if c["gen"] == "seed":
-                o = er.random_indices(c["imax"], c["nrand"], unique=c["unique"], seed=c["seed"])
+                o = er.random_indices(imax, nrand, seed=c["seed"], **kw)
+            elif c["gen"] == "none":
+                o = er.random_indices(imax, nrand, **kw)
+            elif form == "positional":
+                o = er.random_indices(imax, nrand, c["unique"], c19_rng.make(c["gen"], c["seed"]))
             else:
-                o = er.random_indices(c["imax"], c["nrand"], unique=c["unique"], rng=c19_rng.make(c["gen"], c["seed"]))
-            return [int(v) for v in np.asarray(o).ravel()]
-        return [core.guarded(once), core.guarded(once)]
+                o = er.random_indices(imax, nrand, rng=c19_rng.make(c["gen"], c["seed"]), **kw)
+            o = np.asarray(o)
+            if o.dtype.kind not in "iu":
+                raise TypeError("indices of dtype %s" % o.dtype)
+            return [int(v) for v in o.ravel()]
+        a = core.guarded(once)
+        return [a, a if c["gen"] == "none" else core.guarded(once)]        # nothing to repeat without rng / seed
 
     def term_real(self, c, out):
         f = lambda o: "(Ok %s)" % clist(o[1]) if o[0] == "ok" else "(Err %s)" % o[1]   # noqa
